@@ -122,11 +122,15 @@ void read_adjacency_data(const boost::filesystem::path &filename,
  *
  * @param[in] filename Name of the file containing the data
  * @param[in] assortative Whether the affinity matrix is assortative
- * @param[in,out] w Vector containing the values of the Affinity tensor
+ * @param[in,out] w Vector containing the values of the Affinity tensor (already sized)
+ * @param[in] expected_nof_groups Expected number of groups (0: not checked)
+ *
+ * @throws std::runtime_error if the numbers of columns or layers do not match the size of @c w
  */
 void read_affinity_data(const boost::filesystem::path &filename,
                         const bool &assortative,
-                        std::vector<double> &w);
+                        std::vector<double> &w,
+                        const size_t expected_nof_groups = 0);
 
 /*!
  * @brief Write affinity file
